@@ -277,7 +277,9 @@ def run_tr(case):
     if not np.allclose(theta, ref_theta, rtol=1e-12, atol=1e-12):
         raise Violation('C20:back-transform', 'back-transform of %r is %r, expected %r; %s' % (tt.tolist(), theta.tolist(), ref_theta.tolist(), ctx))
     for i, (x, (a, b)) in enumerate(zip(theta, bound)):
-        if not (a <= x <= b):
+        # (at saturation the last rounding of a + (b - a) * s may land one unit in the last place beyond the bound)
+        ulp = 4 * np.finfo(float).eps * max(abs(a) if np.isfinite(a) else 0.0, abs(b) if np.isfinite(b) else 0.0, 1e-300)
+        if not (a - ulp <= x <= b + ulp):
             raise Violation('C20:back-transform-outside-bounds', 'component %d = %r outside [%r, %r]; %s' % (i, x, a, b, ctx))
     # inverse: forward(back(t)) == t wherever the back-transform did not saturate in floating point
     sat = np.array([(np.isfinite(a) and x - a <= 1e-9 * max(1, abs(a))) or (np.isfinite(b) and b - x <= 1e-9 * max(1, abs(b))) for x, (a, b) in zip(theta, bound)])
